@@ -433,7 +433,14 @@ impl GitignoreBuilder {
                     break;
                 }
             };
-            if let Err(err) = self.add_line(Some(path.to_path_buf()), &line) {
+            // Like git, skip a UTF-8 byte order mark at the start of the
+            // file; otherwise it becomes part of the first glob.
+            let line = if i == 0 {
+                line.strip_prefix('\u{FEFF}').unwrap_or(&line)
+            } else {
+                &line
+            };
+            if let Err(err) = self.add_line(Some(path.to_path_buf()), line) {
                 errs.push(err.tagged(path, lineno));
             }
         }
